@@ -45,6 +45,7 @@ type FuncOut struct {
 	Trusted      bool     `json:"trusted"`
 	Obligations  int      `json:"obligations"`
 	Abstractions []string `json:"abstractions,omitempty"`
+	Warnings     []string `json:"contract_warnings,omitempty"`
 	Models       []string `json:"models,omitempty"`
 	Loops        int      `json:"loops"`
 }
@@ -136,6 +137,10 @@ func main() {
 			fx.vacuity()
 		}()
 		fo.Abstractions = fx.abstractions
+		fo.Warnings = fx.warnings
+		for _, w := range fx.warnings {
+			fmt.Printf("CONTRACT-WARNING %s: %s\n", fx.name, w)
+		}
 		fo.Loops = len(fx.loops)
 		for m := range fx.usedModels {
 			fo.Models = append(fo.Models, m)
@@ -163,7 +168,7 @@ func main() {
 			fx.initMaps()
 			fx.entry = &State{PC: tTrue, H: T{"H!none", SHeap}, Hs: T{"Hs!none", SSHeap}, Alloc: T{"alloc!none", SSet}, Priv: map[*ssa.Alloc][2]T{}}
 			env := &Env{fx: fx, st: fx.entry, old: fx.entry, bound: map[string]Val{}, calleeMode: true, calleeParams: map[string]Val{}}
-			goal := fx.evalBool(env, lm.C.E)
+			goal := fx.goalBool(env, lm.C.E)
 			o := &Obligation{Name: fmt.Sprintf("%s.%s/lemma:%s", u.Name, name, lm.Name), Kind: "lemma", Func: name, Unit: u.Name, Prefix: len(fx.lines), Guard: tTrue, Goal: goal, Extra: tTrue, Src: lm.C.Src, Pos: lm.C.Pos, fx: fx}
 			if kre.MatchString(o.Name) {
 				allObls = append(allObls, o)
@@ -174,7 +179,7 @@ func main() {
 	// contracts naming functions that do not exist
 	for name, fc := range u.Contracts.Funcs {
 		if !fc.Used && u.contractBelongs(name) && !u.functionExists(name) {
-			u.errors = append(u.errors, fmt.Sprintf("contract-mismatch: contract for %s (%s:%d) names no function of unit %s", name, filepath.Base(fc.File), fc.Line, u.Name))
+			fmt.Printf("CONTRACT-WARNING %s: contract (%s:%d) names no function of unit %s\n", name, filepath.Base(fc.File), fc.Line, u.Name)
 		}
 	}
 
